@@ -41,7 +41,9 @@ theorem refine_fromEntropy (W : World) (e : Bytes) (wordLen ℓ : Int) (st : St)
   dsimp only
   -- `lg.list()` is pure: replace the call wherever the source places it
   simp only [refine_Language_list_fun, bind_pure_fun]
-  rw [show lenBytes e = ((e.length : Nat) : Int) from rfl, show (4 : Int) = ((4 : Nat) : Int) from rfl, toUint_div_len _ _ hlen]
+  -- the checksum width `len(entropy)/4`, converted to `uint` before or after the division
+  rw [show lenBytes e = ((e.length : Nat) : Int) from rfl]
+  simp only [(csWidth_forms e.length hlen).1, (csWidth_forms e.length hlen).2]
   have hcsb : e.length / 4 < 9223372036854775808 := by omega
   generalize e.length / 4 = cs at *
   simp only [sha256New, hashWrite, hashSum, List.nil_append]
@@ -88,8 +90,9 @@ theorem refine_fromEntropy (W : World) (e : Bytes) (wordLen ℓ : Int) (st : St)
           dsimp only
           have hdrop : List.drop wordLen.toNat (List.replicate wordLen.toNat ([] : Str)) = [] := by simp
           rw [hdrop, List.append_nil]
+          -- the choice of the separator, whichever way round the source tests it
           by_cases hj : ℓ = Gen.vJapanese
-          · simp only [hj, decide_true, if_true]; rfl
-          · simp only [hj, decide_false, Bool.false_eq_true, if_false]; rfl
+          · simp [hj, Go.pure]
+          · simp [hj, Go.pure]
 
 end Bip39V
